@@ -1,0 +1,178 @@
+//go:build verif
+
+package staking
+
+// Contracts for the deductive checker in /verif (comment-only; compiled only with -tags verif).
+// C05-run (agent AA): the entry points of the staking precompile - Run (dispatch, entry conditions of the method contracts, write
+// protection, flush, gas charging), IsTransaction, RequiredGas. The method contracts (tags c04, c04ap, c16q, c16d) are USED here.
+
+/*@
+specfunc StkIsTx(n string) bool = n == "createValidator" || n == "delegate" || n == "undelegate" || n == "redelegate" || n == "cancelUnbondingDelegation"
+        || n == "approve" || n == "revoke" || n == "increaseAllowance" || n == "decreaseAllowance"
+specfunc StkIsQuery(n string) bool = n == "delegation" || n == "unbondingDelegation" || n == "validator" || n == "validators" || n == "redelegation" || n == "redelegations" || n == "allowance"
+
+// C05 / C04: every method whose contract changes state (modifies cstate / the grant store g_*: the five staking transactions and
+// the four authorization transactions) is classified as a transaction - one clause per method, so that a missing case is named
+func (Precompile).IsTransaction
+    ensures c05_createValidator: method == "createValidator" ==> result
+    ensures c05_delegate: method == "delegate" ==> result
+    ensures c05_undelegate: method == "undelegate" ==> result
+    ensures c05_redelegate: method == "redelegate" ==> result
+    ensures c05_cancelUnbondingDelegation: method == "cancelUnbondingDelegation" ==> result
+    ensures c05_approve: method == "approve" ==> result
+    ensures c05_revoke: method == "revoke" ==> result
+    ensures c05_increaseAllowance: method == "increaseAllowance" ==> result
+    ensures c05_decreaseAllowance: method == "decreaseAllowance" ==> result
+    ensures exact: result == StkIsTx(method)
+
+// RequiredGas (called by vm.runPrecompiledContract with the raw call data, before Run): the common flat + per-byte cost, write
+// costs exactly for the transaction methods; 0 for an unknown selector.
+// FINDING AA1: `input[:4]` panics on call data shorter than four bytes - nothing at the call site guarantees them
+func (Precompile).RequiredGas
+    requires golen: 0 <= len(input) && len(input) <= 9223372036854775807
+    ensures unknown: ret(MethodById, 1, 1) != nil ==> result == 0
+    ensures tx: ret(MethodById, 1, 1) == nil && StkIsTx(ret(MethodById, 1, 0).Name) ==> result == p.KvGasConfig.WriteCostFlat + p.KvGasConfig.WriteCostPerByte * (len(input) - 4)
+    ensures query: ret(MethodById, 1, 1) == nil && !StkIsTx(ret(MethodById, 1, 0).Name) ==> result == p.KvGasConfig.ReadCostFlat + p.KvGasConfig.ReadCostPerByte * (len(input) - 4)
+
+// every method consumes SDK gas on the meter of the context it is given (a larger frame: nothing to re-verify)
+extend func (Precompile).Approve
+    modifies gasw
+extend func (Precompile).Revoke
+    modifies gasw
+extend func (Precompile).IncreaseAllowance
+    modifies gasw
+extend func (Precompile).DecreaseAllowance
+    modifies gasw
+extend func (Precompile).CreateValidator
+    modifies gasw
+extend func (Precompile).Delegate
+    modifies gasw
+extend func (Precompile).Undelegate
+    modifies gasw
+extend func (Precompile).Redelegate
+    modifies gasw
+extend func (Precompile).CancelUnbondingDelegation
+    modifies gasw
+extend func (Precompile).Delegation
+    modifies gasw
+extend func (Precompile).UnbondingDelegation
+    modifies gasw
+extend func (Precompile).Validator
+    modifies gasw
+extend func (Precompile).Validators
+    modifies gasw
+extend func (Precompile).Redelegation
+    modifies gasw
+extend func (Precompile).Redelegations
+    modifies gasw
+extend func (Precompile).Allowance
+    modifies gasw
+
+// ---- Run
+// Preconditions: facts of the call chain vm.EVM.Call / CallCode / DelegateCall / StaticCall -> runPrecompiledContract -> Run
+// (evm and contract non-nil; a *statedb.StateDB given to the EVM is non-nil; block heights are >= 0), of NewPrecompile (keeper
+// set) and of the embedded abi.json (event arities; neither fallback nor receive). `value`: see FINDING AA2 (RunSetup).
+func (Precompile).Run
+    requires wf: evm != nil && contract != nil && p.stakingKeeper.Keeper != nil
+    requires sdb: isdyn(evm.StateDB, *SDB) ==> dyn(evm.StateDB, *SDB) != nil && ctx_height(dyn(evm.StateDB, *SDB).ctx) >= 0
+    requires golen: len(contract.Input) >= 0
+    requires value: len(contract.Input) == 0 ==> contract.value != nil
+    requires abi_events: len(p.ABI.Events["Approval"].Inputs) == 4 && len(p.ABI.Events["Revocation"].Inputs) == 3 && len(p.ABI.Events["AllowanceChange"].Inputs) == 4
+    requires abi_plain: p.ABI.Fallback.Type != 1 && p.ABI.Receive.Type != 2
+    // abi.json declares exactly the sixteen methods the switch knows (OBSERVATION AA3: the switch has no default case - a method
+    // added to abi.json without a case would succeed with empty output; ics20 / bank / erc20 answer ErrUnknownMethod)
+    requires abi_methods: forall n string :: has(p.ABI.Methods, n) ==> StkIsTx(n) || StkIsQuery(n)
+    let sdb = dyn(evm.StateDB, *SDB)
+    let setup_ok = ret(RunSetup, 1, 5) == nil
+    let rctx = ret(RunSetup, 1, 0)
+    let m = ret(RunSetup, 1, 2)
+    let name = ret(RunSetup, 1, 2).Name
+    let gas0 = ret(RunSetup, 1, 3)
+    let rargs = ret(RunSetup, 1, 4)
+    let meter = ctx_gasmeter(rctx)
+    let caller = old(contract.CallerAddress)
+    let flushed = sdb_flush(old(cstate), sdb_pending)
+    let denom = bond_denom(oldheap(*p.stakingKeeper.Keeper), rctx)
+    modifies cstate, g_kind, g_exp, g_limited, g_limit, sdb_delta, gasw, gas_base, bank_bal, bank_supply, sdb_flushes, *contract
+    // the deferred out-of-gas handler (HandleGasError$1) is built with what its contract requires, both in RunSetup and in Run
+    call HandleGasError requires site: contract != nil && err != nil && gas_consumed(ctx_gasmeter(ctx)) >= initialGas
+    // ---- (e) the pending StateDB changes are written to the store once, before the method runs, and only when the call was accepted
+    call Commit requires once: s == sdb && sdb_flushes == old(sdb_flushes) && cstate == old(cstate)
+    // ---- (a) dispatch: a method runs only under its own name ...
+    call Precompile.Approve requires named: method.Name == "approve"
+    call Precompile.Revoke requires named: method.Name == "revoke"
+    call Precompile.IncreaseAllowance requires named: method.Name == "increaseAllowance"
+    call Precompile.DecreaseAllowance requires named: method.Name == "decreaseAllowance"
+    call Precompile.CreateValidator requires named: method.Name == "createValidator"
+    call Precompile.Delegate requires named: method.Name == "delegate"
+    call Precompile.Undelegate requires named: method.Name == "undelegate"
+    call Precompile.Redelegate requires named: method.Name == "redelegate"
+    call Precompile.CancelUnbondingDelegation requires named: method.Name == "cancelUnbondingDelegation"
+    call Precompile.Delegation requires named: method.Name == "delegation"
+    call Precompile.UnbondingDelegation requires named: method.Name == "unbondingDelegation"
+    call Precompile.Validator requires named: method.Name == "validator"
+    call Precompile.Validators requires named: method.Name == "validators"
+    call Precompile.Redelegation requires named: method.Name == "redelegation"
+    call Precompile.Redelegations requires named: method.Name == "redelegations"
+    call Precompile.Allowance requires named: method.Name == "allowance"
+    // ---- (b) ... with the transaction signer as origin, RunSetup's context / method / arguments, the caller's contract and the EVM's StateDB
+    // (the `wf` / `abi_nonnil` preconditions of the method contracts are proved on top of these as #callN[..].pre.* obligations)
+    call Precompile.Approve requires entry: origin == evm.Origin && ctx == rctx && method == m && args == rargs && isdyn(stateDB, *SDB) && dyn(stateDB, *SDB) == sdb
+    call Precompile.Revoke requires entry: origin == evm.Origin && ctx == rctx && method == m && args == rargs && isdyn(stateDB, *SDB) && dyn(stateDB, *SDB) == sdb
+    call Precompile.IncreaseAllowance requires entry: origin == evm.Origin && ctx == rctx && method == m && args == rargs && isdyn(stateDB, *SDB) && dyn(stateDB, *SDB) == sdb
+    call Precompile.DecreaseAllowance requires entry: origin == evm.Origin && ctx == rctx && method == m && args == rargs && isdyn(stateDB, *SDB) && dyn(stateDB, *SDB) == sdb
+    call Precompile.CreateValidator requires entry: origin == evm.Origin && ctx == rctx && method == m && args == rargs && contract == old(contract) && isdyn(stateDB, *SDB) && dyn(stateDB, *SDB) == sdb
+    call Precompile.Delegate requires entry: origin == evm.Origin && ctx == rctx && method == m && args == rargs && contract == old(contract) && isdyn(stateDB, *SDB) && dyn(stateDB, *SDB) == sdb
+    call Precompile.Undelegate requires entry: origin == evm.Origin && ctx == rctx && method == m && args == rargs && contract == old(contract) && isdyn(stateDB, *SDB) && dyn(stateDB, *SDB) == sdb
+    call Precompile.Redelegate requires entry: origin == evm.Origin && ctx == rctx && method == m && args == rargs && contract == old(contract) && isdyn(stateDB, *SDB) && dyn(stateDB, *SDB) == sdb
+    call Precompile.CancelUnbondingDelegation requires entry: origin == evm.Origin && ctx == rctx && method == m && args == rargs && contract == old(contract) && isdyn(stateDB, *SDB) && dyn(stateDB, *SDB) == sdb
+    // ---- (c) C05 / C04: no state-changing method runs in a read-only frame (STATICCALL; here also DELEGATECALL and CALLCODE)
+    call Precompile.Approve requires c05_writable: !readOnly
+    call Precompile.Revoke requires c05_writable: !readOnly
+    call Precompile.IncreaseAllowance requires c05_writable: !readOnly
+    call Precompile.DecreaseAllowance requires c05_writable: !readOnly
+    call Precompile.CreateValidator requires c05_writable: !readOnly
+    call Precompile.Delegate requires c05_writable: !readOnly
+    call Precompile.Undelegate requires c05_writable: !readOnly
+    call Precompile.Redelegate requires c05_writable: !readOnly
+    call Precompile.CancelUnbondingDelegation requires c05_writable: !readOnly
+    // ---- postconditions
+    // a refused call (not the EVM's StateDB, unknown selector, undecodable arguments, write protection) has no effect at all
+    ensures setup_refused: !setup_ok ==> result.1 != nil && len(result.0) == 0 && cstate == old(cstate) && sdb_flushes == old(sdb_flushes) && contract.Gas == old(contract.Gas)
+            && g_kind == old(g_kind) && g_limit == old(g_limit) && sdb_delta == old(sdb_delta)
+    ensures c05_readonly: readOnly && setup_ok ==> !StkIsTx(name)
+    ensures c05_readonly_frame: readOnly && result.1 == nil ==> cstate == flushed && g_kind == old(g_kind) && g_exp == old(g_exp) && g_limited == old(g_limited) && g_limit == old(g_limit) && sdb_delta == old(sdb_delta)
+    // an unknown method name is an error - here only because RunSetup cannot select one (abi_methods, no fallback)
+    ensures unknown_name: setup_ok && !StkIsTx(name) && !StkIsQuery(name) ==> result.1 != nil
+    // (e) an accepted call flushes exactly once
+    ensures flushed_once: setup_ok ==> sdb_flushes == old(sdb_flushes) + 1
+    // (d) gas: on success the SDK gas the method consumed on RunSetup's meter is charged to the contract, exactly once; a cost above
+    // the remaining gas is an out-of-gas error; on error there is no output and nothing is charged by Run
+    ensures gas_charged: result.1 == nil ==> contract.Gas == old(contract.Gas) - (gasw[meter] - gas0) && gasw[meter] - gas0 <= old(contract.Gas)
+    ensures out_of_gas: setup_ok && gasw[meter] - gas0 > old(contract.Gas) ==> result.1 != nil
+    ensures error_no_output: result.1 != nil ==> len(result.0) == 0 && contract.Gas == old(contract.Gas)
+    ensures contract_kept: contract.CallerAddress == old(contract.CallerAddress) && contract.Input == old(contract.Input) && contract.value == old(contract.value)
+    // effects: what the selected method's contract promises holds of Run (a skipped or misrouted call is noticed)
+    ensures c16_delegate: result.1 == nil && name == "delegate" ==> cstate == delegate_post(flushed, ctx_wrap(rctx), bech_of(dyn(rargs[0], Address)), dyn(rargs[1], string), denom, bigval(dyn(rargs[2], *BigInt)))
+            && (dyn(rargs[0], Address) == evm.Origin || dyn(rargs[0], Address) == caller)
+    ensures c16_undelegate: result.1 == nil && name == "undelegate" ==> cstate == undelegate_post(flushed, ctx_wrap(rctx), bech_of(dyn(rargs[0], Address)), dyn(rargs[1], string), denom, bigval(dyn(rargs[2], *BigInt)))
+            && (dyn(rargs[0], Address) == evm.Origin || dyn(rargs[0], Address) == caller)
+    ensures c16_redelegate: result.1 == nil && name == "redelegate" ==> cstate == redelegate_post(flushed, ctx_wrap(rctx), bech_of(dyn(rargs[0], Address)), dyn(rargs[1], string), dyn(rargs[2], string), denom, bigval(dyn(rargs[3], *BigInt)))
+            && (dyn(rargs[0], Address) == evm.Origin || dyn(rargs[0], Address) == caller)
+    ensures c16_cancel: result.1 == nil && name == "cancelUnbondingDelegation" ==> cstate == cancelunb_post(flushed, ctx_wrap(rctx), bech_of(dyn(rargs[0], Address)), dyn(rargs[1], string), denom, bigval(dyn(rargs[2], *BigInt)), old(*dyn(rargs[3], *BigInt)))
+            && (dyn(rargs[0], Address) == evm.Origin || dyn(rargs[0], Address) == caller)
+    ensures c04_create_validator: result.1 == nil && name == "createValidator" ==> len(rargs) == 7 && isdyn(rargs[3], Address) && dyn(rargs[3], Address) == evm.Origin
+    ensures c04_approve: result.1 == nil && name == "approve" ==> len(rargs) == 3 && isdyn(rargs[0], Address) && UrlsOk(rargs[2])
+            && (forall k GKey :: (forall j int :: 0 <= j && j < len(unbox(rargs[2], "[]string")) ==> k != gkey(addr_bytes(dyn(rargs[0], Address)), addr_bytes(evm.Origin), unbox(rargs[2], "[]string")[j])) ==> g_kind[k] == old(g_kind)[k] && g_limit[k] == old(g_limit)[k])
+    ensures c04_revoke: result.1 == nil && name == "revoke" ==> len(rargs) == 2 && (forall j int :: 0 <= j && j < len(unbox(rargs[1], "[]string")) ==> g_kind[gkey(addr_bytes(dyn(rargs[0], Address)), addr_bytes(evm.Origin), unbox(rargs[1], "[]string")[j])] == 0)
+    ensures c04_increase: result.1 == nil && name == "increaseAllowance" ==> len(rargs) == 3 && g_kind == old(g_kind) && g_exp == old(g_exp)
+            && (forall j int :: 0 <= j && j < len(unbox(rargs[2], "[]string")) ==> old(g_kind)[gkey(addr_bytes(dyn(rargs[0], Address)), addr_bytes(evm.Origin), unbox(rargs[2], "[]string")[j])] == StakeTag())
+    ensures c04_decrease: result.1 == nil && name == "decreaseAllowance" ==> len(rargs) == 3 && g_kind == old(g_kind) && g_exp == old(g_exp)
+            && (forall j int :: 0 <= j && j < len(unbox(rargs[2], "[]string")) ==> old(g_kind)[gkey(addr_bytes(dyn(rargs[0], Address)), addr_bytes(evm.Origin), unbox(rargs[2], "[]string")[j])] == StakeTag())
+    // a query leaves the flushed Cosmos state, the grants and the balance mirror alone, and answers only decodable requests
+    ensures query_frame: result.1 == nil && StkIsQuery(name) ==> cstate == flushed && g_kind == old(g_kind) && g_exp == old(g_exp) && g_limited == old(g_limited) && g_limit == old(g_limit) && sdb_delta == old(sdb_delta)
+    ensures q_delegation: result.1 == nil && name == "delegation" ==> len(rargs) == 2 && isdyn(rargs[0], Address) && isdyn(rargs[1], string)
+    ensures q_unbonding: result.1 == nil && name == "unbondingDelegation" ==> len(rargs) == 2 && isdyn(rargs[0], Address) && isdyn(rargs[1], string)
+    ensures q_validator: result.1 == nil && name == "validator" ==> len(rargs) == 1 && isdyn(rargs[0], string)
+    ensures q_allowance: result.1 == nil && name == "allowance" ==> len(rargs) == 3
+@*/
